@@ -192,7 +192,21 @@ def run(ctx: Ctx, env):
                 ok_all = False
                 ctx.fail("R3.call-production", key, f"Call.func is {f!r}, expected the identifier p[{ident_idx[0] if ident_idx else '?'}]", gm.loc(p.func))
                 break
-            order = list_source_order(v.fields.get("args"))
+            argv = v.fields.get("args")
+            # the argument list is what was written: a list-valued symbol (or the items of a syntactic list_expr),
+            # never the *contents* of an argument expression that merely happens to be a list
+            if isinstance(argv, ListV) and argv.owner is not None:
+                from .common import sym_index
+                si = sym_index(argv.owner)
+                sym = p.syms[si] if si is not None and si < len(p.syms) else None
+                img = kf.image.get(sym, set()) if sym else set()
+                if not (img and all(s[0] == "node" and s[1] == "List" for s in img)):
+                    ok_all = False
+                    ctx.fail("R3.call-args-as-written", key, f"the argument list is taken from `{argv.path}`: a single argument that is a list is unpacked into "
+                             f"several arguments, so the count that is validated and stored is not the count that was written", gm.loc(p.func),
+                             "length((1, 2)) eq 2  /  concat(('a', 'b'))")
+                    break
+            order = list_source_order(argv)
             if order is None:
                 ok_all = False
                 ctx.fail("R3.call-args-order", key, f"cannot show arguments are kept in source order: {v.fields.get('args')!r}", gm.loc(p.func))
